@@ -375,7 +375,7 @@ prop("C15", [
          "requests, per-request server behaviour in {whole, two pieces, chunked, whole-then-close} - all vectors for "
          "n<=2, a third of them for larger n - plus time-out scenarios: first request with a 1 s time-out never "
          "answered / answered late / dropped by the server, which goes on serving the connection; time-out on the first "
-         "or on every request): DFS with <= D deviations over the orders of {client reactor_k step, issue next "
+         "or on every request; an answer followed by a connection reset at each position): DFS with <= D deviations over the orders of {client reactor_k step, issue next "
          "request, server accept, server read, server answer piece, tick(+500 ms)} with a real "
          "Experimental::Client whose reactor threads are gated at epoll_wait and a scripted loopback server; oracle "
          "per execution: every promise settled at most once, fulfilled only with the response carrying its own tag, "
